@@ -57,9 +57,10 @@ func inAlphabet(c byte) bool {
 // of the port): %q on ints that are not code points, '#' with %x/%X on floats.
 func excludedFmt(dir []byte, a fmtArg) bool {
 	hasSharp := false
-	vi := verbIndex(dir)
-	verb := dir[vi]
-	for _, c := range dir[:vi] {
+	body := append(append([]byte(nil), dir...), '>')
+	vi := verbIndex(body)
+	verb := body[vi]
+	for _, c := range body[:vi] {
 		if c == '#' {
 			hasSharp = true
 		}
@@ -76,18 +77,76 @@ func excludedFmt(dir []byte, a fmtArg) bool {
 	return false
 }
 
-// verbIndex is the position of the directive's verb: the first byte that is
-// not a flag, digit, '.', '*' or argument-index bracket (the bytes after it are
-// literal text); the last byte when there is none.
-func verbIndex(dir []byte) int {
-	for k, c := range dir {
-		switch c {
-		case '#', '0', '+', '-', ' ', '.', '*', '[', ']', '1', '2', '3', '9':
-		default:
-			return k
+// verbIndex is the position of the verb of the directive whose text (after
+// the '%') starts b, found the way fmt's doFormat scans a directive: flags,
+// [n], width (* or digits), '.' precision ([n], * or digits), [n], verb.
+// Returns len(b) when the text ends before a verb (%!(NOVERB)).
+func verbIndex(b []byte) int {
+	i := 0
+	for i < len(b) && (b[i] == '#' || b[i] == '0' || b[i] == '+' || b[i] == '-' || b[i] == ' ') {
+		i++
+	}
+	digits := func() bool {
+		st := i
+		for i < len(b) && b[i] >= '0' && b[i] <= '9' {
+			i++
+		}
+		return i > st
+	}
+	// argNum mirrors (*pp).argNumber/parseArgNumber: reports "found"
+	argNum := func() bool {
+		if i >= len(b) || b[i] != '[' {
+			return false
+		}
+		if len(b)-i < 3 {
+			i++
+			return false
+		}
+		for j := i + 1; j < len(b); j++ {
+			if b[j] == ']' {
+				ok := j > i+1
+				for k := i + 1; k < j; k++ {
+					if b[k] < '0' || b[k] > '9' {
+						ok = false
+					}
+				}
+				i = j + 1
+				return ok
+			}
+		}
+		i++
+		return false
+	}
+	afterIndex := argNum()
+	if i < len(b) && b[i] == '*' {
+		i++
+		afterIndex = false
+	} else {
+		digits()
+	}
+	if i < len(b) && b[i] == '.' {
+		i++
+		afterIndex = argNum()
+		if i < len(b) && b[i] == '*' {
+			i++
+			afterIndex = false
+		} else {
+			digits()
 		}
 	}
-	return len(dir) - 1
+	if !afterIndex {
+		argNum()
+	}
+	return i
+}
+
+func indexOf(s, sub string) int {
+	for i := 0; i+len(sub) <= len(s); i++ {
+		if s[i:i+len(sub)] == sub {
+			return i
+		}
+	}
+	return -1
 }
 
 func argKind(a fmtArg) string {
@@ -104,24 +163,96 @@ func argKind(a fmtArg) string {
 	return "bytes"
 }
 
-// fmtMismatch reports a difference, classified so that known deviations can
-// be told apart from new ones (the part before " | " identifies the class).
-func fmtMismatch(want, got string, verb byte, emptyLen int, a fmtArg) {
+// fmtMismatch reports a difference from fmt.Sprintf. The recorded deviations
+// of the port (known findings F8a-d) are recognised by an exact model of what
+// the port does instead, computed with Go's own %s formatting:
+//
+//	%v  formats Object.String() as %s would (same flags, width, precision)
+//	%T  formats Object.TypeName() as %s would
+//	a verb that does not apply prints %!verb(String()=<%v as above>) where
+//	    fmt prints the Go type name before the '='
+//	an integer verb (b c o O U) applied to bytes prints nothing
+//
+// A result that is neither fmt's nor the model's is a new violation; the part
+// of the message before " | " names the class.
+func fmtMismatch(want, got string, dir []byte, stars []interface{}, a fmtArg) {
 	if contains(want, "%!(EXTRA") {
 		vf.Stop() // rendering of surplus arguments is excluded by the property
 	}
 	k := argKind(a)
+	// the text after '%' is dir followed by the closing '>' of the harness's
+	// format; without a verb byte in dir the '>' itself is taken as the verb.
+	// Directives that take no argument ("%%") are rendered literally and the
+	// scan continues at the next '%'.
+	body := append(append([]byte(nil), dir...), '>')
+	out := "<"
+	vi := verbIndex(body)
+	for vi < len(body) && body[vi] == '%' {
+		out += "%"
+		nxt := -1
+		for j := vi + 1; j < len(body); j++ {
+			if body[j] == '%' {
+				nxt = j
+				break
+			}
+		}
+		if nxt < 0 {
+			vi = len(body)
+			break
+		}
+		out += string(body[vi+1 : nxt])
+		body = body[nxt+1:]
+		vi = verbIndex(body)
+	}
+	generic := "format of a " + k + " differs from fmt.Sprintf and from the recorded deviations | arg " + a.name + " got " + got + " want " + want
+	if vi >= len(body) {
+		vf.Fail(generic)
+	}
+	verb := body[vi]
+	pre := string(body[:vi])
+	// the text after the directive is rendered by fmt itself (it may hold
+	// further directives, which find no argument left)
+	vf.RealFmt(true)
+	rest := fmt.Sprintf(string(body[vi+1:]))
+	vf.RealFmt(false)
+	asS := func(text string) string {
+		args := append(append([]interface{}(nil), stars...), text)
+		vf.RealFmt(true)
+		r := fmt.Sprintf("%"+pre+"s", args...)
+		vf.RealFmt(false)
+		// a bad '*' operand is reported once, where the directive is parsed
+		for _, p := range []string{"%!(BADPREC)", "%!(BADWIDTH)"} {
+			if len(r) >= len(p) && r[:len(p)] == p {
+				r = r[len(p):]
+			}
+		}
+		return r
+	}
+	tail := " | arg " + a.name + " got " + got + " want " + want
 	switch {
 	case verb == 'v':
-		vf.Fail("%v (default format) of a " + k + " differs from fmt's | arg " + a.name + " got " + got + " want " + want)
+		if got == out+asS(a.obj.String())+rest {
+			vf.Fail("%v formats String() like %s instead of the default format of a " + k + tail)
+		}
 	case verb == 'T':
-		vf.Fail("%T of a " + k + " differs from Go's type name | arg " + a.name + " got " + got + " want " + want)
-	case k == "bytes" && len(got) == emptyLen && (verb == 'b' || verb == 'c' || verb == 'o' || verb == 'O' || verb == 'U'):
-		vf.Fail("integer verb applied to a bytes value prints nothing | arg " + a.name + " got " + got + " want " + want)
-	case contains(want, "%!"):
-		vf.Fail("bad-verb / missing-argument text for a " + k + " differs from fmt's | arg " + a.name + " got " + got + " want " + want)
+		if got == out+asS(a.obj.TypeName())+rest {
+			vf.Fail("%T prints tengo's type name of a " + k + tail)
+		}
+	case k == "bytes" && verb != 'd' && verb != 's' && verb != 'x' && verb != 'X' && verb != 'q':
+		// fmt prints the elements (with integer verbs) or a bad-verb text per
+		// element; the port's fmtBytes has no default case
+		idx := indexOf(want, "[")
+		if idx >= 0 && got == want[:idx]+rest {
+			vf.Fail("a verb other than v d s x X q applied to a bytes value prints nothing" + tail)
+		}
+	default:
+		bad := string([]byte{'%', '!', verb, '('})
+		idx := indexOf(want, bad)
+		if idx >= 0 && got == want[:idx]+bad+a.obj.String()+"="+asS(a.obj.String())+")"+rest {
+			vf.Fail("bad-verb text names the value instead of the Go type of a " + k + tail)
+		}
 	}
-	vf.Fail("format of a " + k + " differs from fmt.Sprintf | arg " + a.name + " got " + got + " want " + want)
+	vf.Fail(generic)
 }
 
 // C17_Directive: "%" followed by 1..3 bytes of the directive alphabet, one
@@ -168,8 +299,7 @@ func C17_Directive() {
 	want := fmt.Sprintf(format, govs...)
 	vf.RealFmt(false)
 	if got != want {
-		vi := verbIndex(dir)
-		fmtMismatch(want, got, dir[vi], 2+n-vi-1, a)
+		fmtMismatch(want, got, dir, govs[:stars], a)
 	}
 	vf.Reach("directive")
 }
@@ -202,19 +332,26 @@ func C17_Indexed() {
 	kind := vf.Choice("kind", 3)
 	var objs []tengo.Object
 	var govs []interface{}
+	desc := ""
 	is := []int64{0, 7, -12, 65, 1234567}
 	ss := []string{"", "a", "héllo wörld"}
 	for k := 0; k < 2; k++ {
 		switch kind {
 		case 0:
-			v := is[vf.Choice("i", len(is))]
+			ci := vf.Choice("i", len(is))
+			desc += string(rune('0' + ci))
+			v := is[ci]
 			objs, govs = append(objs, &tengo.Int{Value: v}), append(govs, v)
 		case 1:
-			v := ss[vf.Choice("s", len(ss))]
+			ci := vf.Choice("s", len(ss))
+			desc += string(rune('0' + ci))
+			v := ss[ci]
 			objs, govs = append(objs, &tengo.String{Value: v}), append(govs, v)
 		default:
 			fs := []float64{0, 1.5, -2.25, 1e21}
-			v := fs[vf.Choice("f", len(fs))]
+			ci := vf.Choice("f", len(fs))
+			desc += string(rune('0' + ci))
+			v := fs[ci]
 			objs, govs = append(objs, &tengo.Float{Value: v}), append(govs, v)
 		}
 	}
@@ -233,10 +370,8 @@ func C17_Indexed() {
 	}
 	if got != want {
 		kinds := []string{"int", "string", "float"}
-		if contains(want, "%!") {
-			vf.Fail("bad-verb / missing-argument text differs from fmt's for " + kinds[kind] + " arguments | `" + f + "` got " + got + " want " + want)
-		}
-		vf.Fail("format differs from fmt.Sprintf | `" + f + "` got " + got + " want " + want)
+		// every value here is concrete: the message identifies the exact call
+		vf.Fail("format differs from fmt.Sprintf | `" + f + "` with " + kinds[kind] + " arguments #" + desc + " got " + got + " want " + want)
 	}
 	vf.Reach("indexed")
 }
